@@ -50,7 +50,7 @@ Joins(a, b) == (a \in WordCh /\ (b \in WordCh \/ b = 40)) \/ (a = 47 /\ b = 42)
 (* fixed only: position i starts  url(  (any case) not followed by a quoted string *)
 IsUrlOpen(t, i, o) ==
   /\ Lower(At(t, i)) = 117 /\ Lower(At(t, i + 1)) = 114 /\ Lower(At(t, i + 2)) = 108 /\ At(t, i + 3) = 40
-  /\ ~(Len(o) > 0 /\ (Last(o) \in NameCh \/ Last(o) = 92))
+  /\ ~(Len(o) > 0 /\ Last(o) \in NameCh \cup {92, 35, 64})           \* not the tail of a longer name, #hash or @keyword
   /\ At(t, RunEnd(t, i + 4, WSp)) \notin {34, 39}
 
 (* one iteration of `for i < n`; s = [i, out], i 1-based *)
@@ -67,7 +67,7 @@ MinIter(t, s) ==
        LET e == SScan(t, i + 1, c) IN
          [i |-> e + 1, out |-> o \o SubSeq(t, i, MinOf(e, Len(t)))]
      ELSE IF Impl = "fixed" /\ IsUrlOpen(t, i, o) THEN                     \* unquoted url( ... ) copied verbatim
-       LET e == RunEnd(t, i + 4, Printable \ {41}) IN
+       LET e == FirstIn(t, i + 4, {41}) IN                                \* for j < n && src[j] != ')' { j++ }
          [i |-> e, out |-> o \o SubSeq(t, i, e - 1)]
      ELSE IF c \in WSp THEN                                                \* white-space run
        LET j == RunEnd(t, i, WSp)
